@@ -119,7 +119,11 @@ def solve(assertions, timeout_ms=20000, want_model=False, tactic=None):
     rs = str(r)
     if rs == "sat": STATS.sat += 1
     elif rs == "unsat": STATS.unsat += 1
-    else: STATS.unknown += 1
+    else:
+        STATS.unknown += 1
+        d = os.environ.get("VERIF_DUMP_UNKNOWN")          # debugging aid: keep the queries the solver gave up on
+        if d:
+            os.makedirs(d, exist_ok=True); open(os.path.join(d, "q%d_%d.smt2" % (os.getpid(), STATS.queries)), "w").write(sol.to_smt2())
     return rs, (sol.model() if (rs == "sat" and want_model) else None)
 
 # --------------------------------------------------------------------------------------------- known findings
